@@ -431,8 +431,13 @@ def main():
         if hit:
             proof = {"ok": False, "why": "proof obligation no longer checks: %s does not compile against the regenerated sources:\n%s" % (
                 ", ".join(hit), "\n".join(l for l in st["coq_log"].splitlines() if "Error" in l or "File" in l)[-1200:])}
-        if not st["gen_ok"]:
-            proof = {"ok": False, "why": "translator rejected the source: " + st["gen_log"][-1500:]}
+        for gname, outs in sorted(st.get("gen_failed", {}).items()):
+            # a translator that rejects the source leaves its generated files at their last good text; the theorems
+            # of this property are affected only when one of those files is in their dependency cone
+            if not outs or any(o in rel for o in outs):
+                log = st["gen_log"]
+                at = log.find("[%s]" % gname)
+                proof = {"ok": False, "why": "translator %s rejected the source: %s" % (gname, log[at:at + 1200] if at >= 0 else log[-1200:])}
     bad = forbidden_scan()
     if bad:
         proof = {"ok": False, "why": "forbidden construct in the development: " + "; ".join(bad[:5])}
